@@ -2,6 +2,7 @@
 //! trust-platform code.  Every sub-command either turns scripts (the environment's half of
 //! a behaviour) into recorded ndjson traces of the real code, or generates scripts.
 mod cycle;
+mod dap;
 mod debug;
 mod det;
 mod ctrlauth;
@@ -25,6 +26,7 @@ fn main() {
         "cycle-gen" => cycle::gen(rest),
         "cycle-run" => cycle::run(rest),
         "debug-run" => debug::run(rest),
+        "dap-child" => dap::child(rest), "dap-run" => dap::run(rest),
         "det-child" => det::child(rest),
         "fb-gen" => fb::gen(rest),
         "fb-run" => fb::run(rest),
